@@ -21,10 +21,10 @@ OUT_NAMES = {0: 'returned', 1: 'PedanticTypeCheckException', 2: 'PedanticTypeVar
 
 PROFILE = {
     # volumes: (annotations quick, thorough), depth (quick, thorough), zoo sample (quick, thorough; None = all)
-    'C01': dict(n=(700, 9000), depth=(4, 6), zoo=(0, 0), bare=False, obs_frac=0.24),
-    'C02': dict(n=(700, 9000), depth=(4, 6), zoo=(0, 0), bare=False, obs_frac=0.24),
-    'C06': dict(n=(120, 1500), depth=(3, 5), zoo=(0, 0), bare=True, obs_frac=0.05),
-    'C08': dict(n=(250, 3000), depth=(4, 6), zoo=(5000, None), bare=True, obs_frac=0.10),
+    'C01': dict(n=(700, 24000), depth=(4, 7), zoo=(0, 0), bare=False, obs_frac=0.24),
+    'C02': dict(n=(700, 24000), depth=(4, 7), zoo=(0, 0), bare=False, obs_frac=0.24),
+    'C06': dict(n=(120, 4000), depth=(3, 6), zoo=(0, 0), bare=True, obs_frac=0.05),
+    'C08': dict(n=(250, 8000), depth=(4, 7), zoo=(5000, None), bare=True, obs_frac=0.10),
 }
 
 
@@ -144,6 +144,11 @@ def matcher(f, case):
 def run(pid, tier, seed, replay, props, judge, extra_streams=None, rule_extra='', extra_units=()):
     ck = Check(pid, tier, seed, UNITS + list(extra_units), MODEL, props)
     ck.prepare()
+    if tier == 'thorough' and replay is None and props and getattr(ck, 'props_ok', False):
+        mod = 'PV.' + props[:-2].replace('/', '.')
+        rc, out, err, dt = sh(['coqchk', '-silent', '-o', '-Q', '.', 'PV', mod], cwd=COQ, timeout=3000)
+        ok = rc == 0 and 'Axioms: <none>' in (out + err)
+        ck.oblige('coqchk:' + mod, 'proof', ok, f'coqchk -o: no axioms, {dt:.0f}s' if ok else (out + err)[-600:])
 
     def still_fails(f):
         w = f.get('witness')
